@@ -457,10 +457,11 @@ struct Slot {
 	killed: bool,
 }
 
-fn spawn_worker(a: &Args, w: usize, nw: usize, skip: u64, tx: &mpsc::Sender<Msg>) -> Child {
+fn spawn_worker(a: &Args, w: usize, nw: usize, skip: u64, tx: &mpsc::Sender<Msg>, scratch: &Path) -> Child {
 	let mut cmd = Command::new(std::env::current_exe().expect("current exe"));
 	cmd.args(&a.raw).arg("--worker").arg(w.to_string()).arg(nw.to_string()).arg(skip.to_string());
-	cmd.stdout(Stdio::piped()).stdin(Stdio::null()).env("RUST_BACKTRACE", "0");
+	// workers keep their files under the parent's scratch directory (a killed worker cannot clean up)
+	cmd.stdout(Stdio::piped()).stdin(Stdio::null()).env("RUST_BACKTRACE", "0").env("VERIF_WORK", scratch);
 	let mut child = cmd.spawn().expect("spawn worker");
 	let out = child.stdout.take().unwrap();
 	let tx = tx.clone();
@@ -507,10 +508,11 @@ fn main() {
 		_ => a.workers.max(1),
 	};
 	let mut sum = Summary::new("btree_run");
+	let scratch = verif_harness::scratch_dir("btree_run");
 	let (tx, rx) = mpsc::channel::<Msg>();
 	let mut slots: Vec<Slot> = (0..nw)
 		.map(|w| Slot {
-			child: spawn_worker(&a, w, nw, 0, &tx),
+			child: spawn_worker(&a, w, nw, 0, &tx, scratch.path()),
 			current: None,
 			last: Instant::now(),
 			done: false,
@@ -599,7 +601,7 @@ fn main() {
 					continue;
 				}
 				slots[w] = Slot {
-					child: spawn_worker(&a, w, nw, idx.unwrap() + 1, &tx),
+					child: spawn_worker(&a, w, nw, idx.unwrap() + 1, &tx, scratch.path()),
 					current: None,
 					last: Instant::now(),
 					done: false,
